@@ -58,6 +58,11 @@ def key_eq(a, b):
     return x is not None and y is not None and x == y
 
 
+def opaque(v):
+    """a value the canonicaliser could not look into (e.g. a set with non-scalar members)"""
+    return isinstance(v, dict) and v.get('obj', 0) >= 1000
+
+
 def get(pairs, k):
     for kk, v in pairs:
         if key_eq(kk, k):
@@ -79,7 +84,11 @@ class Named:
     def formatted(self, k):
         if literal_key(k):
             return [k]
-        return [out for inp, out in self.log if pv.pv_equal(inp, k)]
+        return [out for inp, out, hashable in self.log if hashable and pv.pv_equal(inp, k)]
+
+    def outputs(self, v):
+        """everything the value v was observed to format to"""
+        return [out for inp, out, _ in self.log if pv.pv_equal(inp, v)]
 
     def level(self, inc_levels):
         """-> list of (formatted key, [(incoming key, incoming value), ...])"""
@@ -113,7 +122,11 @@ def check_merge(case, obs, old, inc, after):
     def fp(base, path):
         return base + ('-shared-object' if under_shared(path, shared) else '')
 
-    def walk(old_pairs, after_pairs, inc_levels, path):
+    def sure_key(k0):
+        return literal_key(k0) or len(named_of.formatted(k0)) == 1
+
+    def walk(old_pairs, after_pairs, inc_levels, path, certain):
+        # certain: every mapping in inc_levels is known to have been merged at this level
         named = named_of.level(inc_levels)
         for k, ov in old_pairs:
             here = path + [k]
@@ -128,11 +141,14 @@ def check_merge(case, obs, old, inc, after):
                     out.append(fail('frame', f'{show(here)} is not named by the incoming mapping but changed '
                                              f'from {ov!r} to {av!r}', fp('frame-unnamed-path-changed', here)))
                 continue
+            if opaque(av):
+                continue
             vals = [v for _, v in items]
-            exact = len(items) == 1 and literal_key(items[0][0])
+            exact = certain and len(items) == 1 and literal_key(items[0][0])
             if all(is_map(v) for v in vals) and is_map(ov):
                 if has and is_map(av):
-                    walk(ov['d'], av['d'], [v['d'] for v in vals], here)
+                    walk(ov['d'], av['d'], [v['d'] for v in vals], here,
+                         certain and len(items) == 1 and sure_key(items[0][0]))
                 elif exact and ok:
                     out.append(fail('mappings-merge-recursively', f'{show(here)}: mapping merged into mapping gave {av!r}',
                                     fp('mapping-not-merged', here)))
@@ -164,19 +180,31 @@ def check_merge(case, obs, old, inc, after):
                 check_overwrite(items[0][1], ov, has, av, here)
 
         # keys the incoming mapping adds
-        if ok:
+        if ok and certain:
             for fk, items in named:
-                if len(items) == 1 and literal_key(items[0][0]) and not get(old_pairs, fk)[0]:
+                k0 = items[0][0]
+                sure = len(items) == 1 and sure_key(k0)
+                if sure and not get(old_pairs, fk)[0]:
                     has, av = get(after_pairs, fk)
                     if not has:
-                        out.append(fail('adds', f'{show(path + [fk])} named by the incoming mapping is missing afterwards',
-                                        fp('named-key-not-set', path + [fk])))
-                    else:
+                        out.append(fail('adds', f'{show(path + [fk])} named by the incoming mapping (key {k0!r}) '
+                                                f'is missing afterwards', fp('named-key-not-set', path + [fk])))
+                    elif literal_key(k0):
                         check_overwrite(items[0][1], None, has, av, path + [fk], absent=True)
+            for inc in inc_levels:
+                for k, v in inc:
+                    if not literal_key(k) and not named_of.formatted(k):
+                        out.append(fail('keys-formatted', f'incoming key {k!r} under {show(path)} was merged without '
+                                                          f'being formatted', 'key-not-formatted'))
+        # every key that appears was named
+        for k, av in after_pairs:
+            if not get(old_pairs, k)[0] and not get(named, k)[0]:
+                out.append(fail('frame', f'{show(path + [k])} appeared but the incoming mapping does not name it',
+                                fp('merge-added-unnamed', path + [k])))
 
     def check_overwrite(v, ov, has, av, here, absent=False):
-        if isinstance(av, dict) and av.get('obj', 0) >= 1000:
-            return      # a value the canonicaliser cannot look into (e.g. a set of non-scalars)
+        if opaque(av):
+            return
         # incoming strings and scalars overwrite (with the formatted value)
         want = None
         if plain_leaf(v):
@@ -186,6 +214,11 @@ def check_merge(case, obs, old, inc, after):
         if want is not None and not (has and pv.pv_equal(av, want)):
             out.append(fail('overwrite', f'{show(here)}: incoming {v!r} over {"nothing" if absent else repr(ov)} '
                                          f'left {av!r}', fp('scalar-not-overwritten', here)))
+        if want is None and (isinstance(v, str) or is_tag(v)) and not under_shared(here, shared):
+            outs = named_of.outputs(v)
+            if not (has and any(pv.pv_equal(av, o) for o in outs)):
+                out.append(fail('overwrite', f'{show(here)}: incoming {v!r} left {av!r}, which is not what it '
+                                             f'formats to ({outs!r})', 'value-not-formatted'))
         # kinds differ (and not both containers of the same kind): the incoming value replaces
         if not absent and isinstance(v, dict) and not is_tag(v) and 'b' not in v and 'f' not in v and 'obj' not in v:
             same = (is_map(v) and is_map(ov)) or (is_list(v) and is_list(ov)) or \
@@ -196,7 +229,7 @@ def check_merge(case, obs, old, inc, after):
                     out.append(fail('overwrite', f'{show(here)}: incoming {v!r} over {ov!r} left {av!r}',
                                     fp('container-not-overwritten', here)))
 
-    walk(old, after, [inc], [])
+    walk(old, after, [inc], [], True)
     return out
 
 
@@ -209,7 +242,10 @@ def check_defaults(case, obs, old, inc, after):
     def fp(base, path):
         return base + ('-shared-object' if under_shared(path, shared) else '')
 
-    def walk(old_pairs, after_pairs, inc_levels, path):
+    def sure_key(k0):
+        return literal_key(k0) or len(named_of.formatted(k0)) == 1
+
+    def walk(old_pairs, after_pairs, inc_levels, path, certain):
         named = named_of.level(inc_levels)
         # every existing path keeps its exact value (None included)
         for k, ov in old_pairs:
@@ -225,7 +261,8 @@ def check_defaults(case, obs, old, inc, after):
                     continue
                 found, items = get(named, k)
                 levels = [v['d'] for _, v in items if is_map(v)] if found else []
-                walk(ov['d'], av['d'], levels, here)
+                walk(ov['d'], av['d'], levels, here,
+                     certain and found and len(items) == 1 and sure_key(items[0][0]))
             elif not pv.pv_equal(av, ov):
                 out.append(fail('never-overwrites', f'{show(here)} existed with value {ov!r}, now {av!r}',
                                 fp('defaults-overwrote', here)))
@@ -238,20 +275,23 @@ def check_defaults(case, obs, old, inc, after):
             if not found:
                 out.append(fail('adds-exactly-missing', f'{show(here)} was added but the defaults mapping does not name it',
                                 fp('defaults-added-unnamed', here)))
-            elif len(items) == 1 and literal_key(items[0][0]) and ok:
+            elif certain and len(items) == 1 and literal_key(items[0][0]) and ok:
                 v = items[0][1]
                 want = v if plain_leaf(v) else (v['sic'] if isinstance(v, dict) and 'sic' in v else None)
                 if want is not None and not pv.pv_equal(av, want):
                     out.append(fail('adds-exactly-missing', f'{show(here)} added as {av!r}, default is {v!r}',
                                     'defaults-wrong-value'))
-        if ok:
+        if ok and certain:
             for inc_level in inc_levels:
                 for k, v in inc_level:
+                    if not literal_key(k) and not named_of.formatted(k):
+                        out.append(fail('keys-formatted', f'defaults key {k!r} under {show(path)} was processed '
+                                                          f'without being formatted', 'key-not-formatted'))
                     if literal_key(k) and not get(after_pairs, k)[0]:
                         out.append(fail('adds-exactly-missing', f'{show(path + [k])} is missing and was not added',
                                         'defaults-missing-not-added'))
 
-    walk(old, after, [inc], [])
+    walk(old, after, [inc], [], True)
     return out
 
 
